@@ -32,6 +32,15 @@ thread.  A time bound missed without a state difference makes the round inconclu
 Coverage floor: a replicated call issued on the tick thread inside the callback of a RAISING command, on
 the leader and on a follower.  For C12 only this family runs (a few seconds).
 
+Family S ("start-up", C12 and C19): a one-node autoTick cluster with a file journal applies a script of
+commands (some raise), waits until the commit index is in the journal's meta file, and is destroyed; it is
+then restarted a few times as a subclass that follows the documented pattern — `super().__init__()` first,
+20-30 ms of set-up work, then `self.items = []`.  `_autoTickThread` grants the derived constructor 0.1 s
+before the first tick (which replays the journal).  Monitors: after the replay the node's state equals the
+fold of the committed script; nothing but the script's own ValueErrors is logged from the tick thread.
+Deterministic criterion: a difference counts only when the whole constructor took <= 90 ms (so it was
+inside the grace period whatever the machine load); otherwise the restart is timing-inconclusive.
+
 Then it evaluates the statements of the theorems on what was observed — deterministic pass criteria only
 (no timing assertions):
   * every call id is applied at most once on every replica; applied exactly once (on every replica, after
@@ -648,10 +657,179 @@ def evaluate(objs, outs_per_thread, leader, info):
     return viol, cov
 
 
+
+# ---------------------------------------------------------------------------------------------
+# family S: restart of an autoTick node whose subclass finishes its constructor after SyncObj.__init__
+# ---------------------------------------------------------------------------------------------
+SCRIPT = [("add", 1), ("add", 2), ("remove", 7), ("add", 3), ("remove", 1), ("remove", 1), ("add", 5),
+          ("add", 8), ("remove", 2), ("add", 13)]
+GRACE_OK = 0.09      # constructor durations up to this are inside _autoTickThread's 0.1 s whatever the load
+
+
+def fold_script(script):
+    items = []
+    for meth, v in script:
+        if meth == "add":
+            items.append(v)
+        elif v in items:
+            items.remove(v)
+    return items
+
+
+class _ErrTrap(logging.Handler):
+    """ERROR records of pysyncobj.syncobj that are not the script's own ValueErrors"""
+
+    def __init__(self):
+        logging.Handler.__init__(self)
+        self.bad = []
+
+    def emit(self, record):
+        try:
+            et = record.exc_info[0].__name__ if record.exc_info and record.exc_info[0] else None
+            if "failed _onTick" in record.getMessage() or (record.levelno >= logging.ERROR and et != "ValueError"):
+                self.bad.append("%s [%s: %s]" % (record.getMessage(), et,
+                                                 record.exc_info[1] if record.exc_info else ""))
+        except Exception:   # noqa
+            pass
+
+
+def startup_round(so, parts, tmpdir, restarts, deadline):
+    import os
+    Net, MemTransport, Obj, conf = parts
+    net = Net()
+
+    class T(MemTransport):
+        pass
+    T.net = net
+    events = []           # (method, time) of every execution of a replicated method body
+    marks = {}
+
+    class Store(so.SyncObj):
+        # the documented pattern: SyncObj.__init__ first, then the application's own fields
+        def __init__(self, journal, delay):
+            marks["t0"] = now()
+            super(Store, self).__init__("s0:1", [], conf(autoTick=True, journalFile=journal, raftMinTimeout=0.5,
+                                                          raftMaxTimeout=0.8, appendEntriesPeriod=0.02,
+                                                          autoTickPeriod=0.005, connectionTimeout=3.0),
+                                        transportClass=T)
+            marks["t_super"] = now()
+            nap(delay)                  # set-up work of the application
+            self.items = []
+            marks["t_fields"] = now()
+
+        @so.replicated
+        def add(self, v):
+            events.append(("add", now()))
+            self.items.append(v)
+            return len(self.items)
+
+        @so.replicated
+        def remove(self, v):
+            events.append(("remove", now()))
+            self.items.remove(v)        # ValueError when missing: on every replica, and on replay, alike
+
+    info = {"cfg": "S", "restarts": restarts, "script": len(SCRIPT)}
+    viol = []
+    cov = collections.Counter()
+    expected = fold_script(SCRIPT)
+    journal = os.path.join(tmpdir, "startup-%d.journal" % int(now() * 1000))
+    lg = logging.getLogger("pysyncobj.syncobj")
+    trap = _ErrTrap()
+    old_prop = lg.propagate
+    lg.addHandler(trap)
+    lg.propagate = False
+    node = None
+
+    def wait(cond, bound):
+        t_end = min(deadline, now() + bound)
+        while now() < t_end:
+            if cond():
+                return True
+            nap(0.01)
+        return cond()
+    try:
+        # ---- first incarnation
+        node = Store(journal, 0.02)
+        if not wait(node._isLeader, 20):
+            info["skipped"] = "first incarnation: no leader within the bound"
+            return info, viol, {}
+        fired = []
+        for i, (meth, v) in enumerate(SCRIPT):
+            getattr(node, meth)(v, callback=lambda r, e, i=i: fired.append((i, e)))
+        if not wait(lambda: len(fired) >= len(SCRIPT), 20):
+            info["skipped"] = "first incarnation: %d of %d callbacks within the bound" % (len(fired), len(SCRIPT))
+            return info, viol, {}
+        if sorted(fired) != [(i, 0) for i in range(len(SCRIPT))]:
+            viol.append(("queue.callback:not-fired-exactly-once", "first incarnation: %r" % (sorted(fired),)))
+        if list(node.items) != expected:
+            viol.append(("startup:state-differs-from-fold-of-log", "first incarnation holds %r, fold of the script %r"
+                         % (list(node.items), expected)))
+        applied_before = node.raftLastApplied
+        jr = node._SyncObj__raftLog
+        if not wait(lambda: jr._FileJournal__metaSaved and jr.getRaftCommitIndex() >= applied_before, 10):
+            info["skipped"] = "commit index did not reach the journal's meta file within the bound"
+            return info, viol, {}
+        node.destroy_synchronous()
+        node = None
+        cov["calls"] += len(SCRIPT)
+        # ---- restarts
+        for k in range(restarts):
+            del events[:]
+            marks.clear()
+            del trap.bad[:]
+            delay = 0.02 + 0.005 * (k % 3)
+            node = Store(journal, delay)
+            ready = wait(lambda: node.raftLastApplied >= applied_before, 20)
+            nap(0.05)
+            got = list(getattr(node, "items", ["<no attribute items>"]))
+            la = node.raftLastApplied
+            node.destroy_synchronous()
+            node = None
+            ctor = marks["t_fields"] - marks["t0"]
+            early = [m for m, t in events if t < marks["t_fields"]]
+            rec = {"restart": k, "delay_ms": int(delay * 1000), "constructor_ms": round(ctor * 1000, 1),
+                   "replayed_before_constructor_end": len(early), "replayed": len(events), "lastApplied": la,
+                   "state": got, "expected": expected, "logged": trap.bad[:3]}
+            cov["calls"] += 1
+            if not ready:
+                cov["restarts_not_ready_in_time"] += 1
+                continue
+            if got == expected and not trap.bad:
+                cov["restarts_checked"] += 1
+                continue
+            if ctor > GRACE_OK:
+                cov["restarts_timing_inconclusive"] += 1     # slower than the documented grace: says nothing
+                info.setdefault("timing_inconclusive", []).append(rec)
+                continue
+            cov["restarts_checked"] += 1
+            if got != expected:
+                sig = "startup:journal-replayed-before-constructor-finished" if early else \
+                    "startup:state-differs-from-fold-of-log"
+                viol.append((sig, "restarted node (constructor done %.0f ms after it began, inside the 100 ms the tick "
+                                  "thread grants) replayed %d of %d journal commands before `self.items = []` ran; "
+                                  "lastApplied %d = before the restart %d, state %r, fold of the committed log %r; logged: %r"
+                             % (ctor * 1000, len(early), len(events), la, applied_before, got, expected, trap.bad[:2])))
+            elif trap.bad:
+                viol.append(("startup:unexpected-exception-on-tick-thread", "%r" % (trap.bad[:3],)))
+            info["failed_restart"] = rec
+            break
+    finally:
+        if node is not None:
+            try:
+                node.destroy_synchronous()
+            except Exception:   # noqa
+                pass
+        lg.removeHandler(trap)
+        lg.propagate = old_prop
+    if cov.get("restarts_checked", 0):
+        cov["rounds_S_checked"] += 1
+    return info, viol, cov
+
+
 NEED = ["told_success", "told_fail_1", "sync_value", "sync_timeout", "sync_raised", "cb_fired",
         "target_follower", "rounds_A", "rounds_B", "rounds_D",
-        "rounds_N_quiesced", "nested_from_raising_cb_leader", "nested_from_raising_cb_follower"]
-NEED_C12 = ["rounds_N_quiesced", "nested_from_raising_cb_leader", "nested_from_raising_cb_follower"]
+        "rounds_N_quiesced", "nested_from_raising_cb_leader", "nested_from_raising_cb_follower", "rounds_S_checked"]
+NEED_C12 = ["rounds_N_quiesced", "nested_from_raising_cb_leader", "nested_from_raising_cb_follower", "rounds_S_checked"]
 
 
 def run(ctx):
@@ -674,12 +852,15 @@ def _run(ctx, so):
     cov = collections.Counter()
     old_si = sys.getswitchinterval()
     sys.setswitchinterval(1e-6)
-    plan = [("N", 2, True), ("D", 1, True), ("D", 2, False), ("N", 3, False)]
+    tmpdir = ctx.tmpdir()
+    old_disable = logging.root.manager.disable      # an earlier component may have silenced logging globally:
+    logging.disable(logging.NOTSET)                 # the log traps of families N and S must see ERROR records
+    plan = [("N", 2, True), ("S", 3, True), ("D", 1, True), ("D", 2, False), ("N", 3, False)]
     for qsize in (1, 2, 3, 100000):
         for cfg in ("A", "B"):
             plan.append((cfg, qsize, qsize != 2))
     if only_nested:
-        plan = [("N", 2, True), ("N", 3, False)]
+        plan = [("N", 2, True), ("S", 3, True), ("N", 3, False)]
     try:
         rnd = 0
         while True:
@@ -690,11 +871,13 @@ def _run(ctx, so):
             cfg, qsize, batch = plan[rnd % len(plan)]
             if rnd >= len(plan):
                 batch = rng.random() < 0.6
-                if cfg == "N" and reached:
-                    cfg, qsize = "A", 3          # one pair of nested rounds is enough once its floors are met
+                if cfg in ("N", "S") and reached:
+                    cfg, qsize = "A", 3          # one pass of the directed families is enough once their floors are met
             if not reached and elapsed >= budget and not only_nested:
                 # overtime: only the configurations that still have something to contribute
-                if any(cov.get(k, 0) == 0 for k in NEED_C12):
+                if cov.get("rounds_S_checked", 0) == 0 and rnd % 2:
+                    cfg, qsize = "S", 3
+                elif any(cov.get(k, 0) == 0 for k in NEED_C12[:3]):
                     cfg, qsize = "N", 2 + rnd % 2
                 elif cov.get("rounds_D", 0) == 0 or any(cov.get(k, 0) == 0 for k in NEED[:6]):
                     cfg, qsize = "D", 1
@@ -703,7 +886,16 @@ def _run(ctx, so):
                 else:
                     cfg = "A"
             deadline = min(t0 + hard + 5, now() + 30)
-            if cfg == "N":
+            if cfg == "S":
+                N, M = 1, 0
+                sys.setswitchinterval(old_si)        # the start-up race is judged at the interpreter's normal pace
+                try:
+                    info, viol, c = startup_round(so, parts, tmpdir, qsize, deadline)
+                finally:
+                    sys.setswitchinterval(1e-6)
+                c = collections.Counter(c)
+                c["mode_startup"] = c.pop("calls", 0)
+            elif cfg == "N":
                 N, M = 1, 0
                 info, viol, c = nested_round(so, parts, qsize, batch, deadline)
                 c = collections.Counter(c)
@@ -722,7 +914,7 @@ def _run(ctx, so):
             cov.update(c)
             if c:
                 cov["rounds_" + cfg] += 1
-                if cfg != "N":
+                if cfg not in ("N", "S"):
                     cov["rounds_q%s" % (qsize if qsize < 10 else "big")] += 1
             if info.get("quiesced"):
                 cov["rounds_quiesced"] += 1
@@ -735,12 +927,13 @@ def _run(ctx, so):
             for sig, what in viol:
                 if len(res["violations"]) < 3 and sig not in [x["signature"] for x in res["violations"]]:
                     res["violations"].append({"signature": sig, "what": what,
-                                              "replay": {"kind": "threads-nested" if cfg == "N" else "threads",
+                                              "replay": {"kind": {"N": "threads-nested", "S": "threads-startup"}.get(cfg, "threads"),
                                                          "round": info, "seed": ctx.seed,
                                                          "note": "real-thread schedule: re-run the component with the same seed; "
                                                                  "the interleaving itself is chosen by the OS"}})
     finally:
         sys.setswitchinterval(old_si)
+        logging.disable(old_disable)
     res["distinct"] = res["cases"]       # every call has its own id and its own position in a real schedule
     missed = [k for k in need if cov.get(k, 0) == 0]
     res["coverage"] = dict(cov)
@@ -759,6 +952,12 @@ def replay(ctx, violation):
     the interleaving) and says whether the same signature shows again."""
     so = qc.load(ctx)
     r = violation.get("replay", {})
+    if r.get("kind") == "threads-startup":
+        with qc.real_runtime(so):
+            info, viol, cov = startup_round(so, build(so), ctx.tmpdir(), 5, now() + 60)
+        ctx.cleanup()
+        same = [v for v in viol if v[0] == violation.get("signature")]
+        return {"violated": bool(same), "violations": viol[:5], "round": info, "coverage": dict(cov)}
     if r.get("kind") != "threads-nested":
         return {"violated": None, "note": "free-running real-thread round: re-run `./check` with the same seed", "round": r}
     with qc.real_runtime(so):
